@@ -536,7 +536,7 @@ impl World for C15World {
 
 pub fn cases(quick: bool) -> Vec<Case> {
     let mut v = Vec::new();
-    let sizes: &[u32] = if quick { &[1, 2, 3, 4] } else { &[1, 2, 3, 4, 6, 8] };
+    let sizes: &[u32] = if quick { &[1, 2, 3] } else { &[1, 2, 3, 4, 6, 8] };
     for &b in sizes {
         for fill in 0..=b as usize {
             for slot in [0u16, 1, 3] {
